@@ -9,7 +9,9 @@ LEAN_PROPS = ["FastTicc.Props.C11", "FastTicc.Props.OptPhase"]
 LEAN_HELPERS = ["FastTicc.Proofs.Index"]
 LEAN_TRANSLATED = {"FastTicc.Props.TrIndex": ["_size_including_this_row", "_elements_in_row_after_target", "_compressed_index",
                                              "_block_start_coordinates", "_unique_variable_locations",
-                                             "locations_compressed", "locations_index_slices"]}
+                                             "locations_compressed", "locations_index_slices"],
+                   "FastTicc.Props.TrCompress": ["_upper_triangle_indices", "_uncompress_upper_triangle", "_upper_to_full",
+                                                 "compress_matrix", "reinflate_matrix"]}
 RULE = ("exhaustive enumeration: every matrix size n <= Nmax for the compression maps "
         "(every (r,c) pair), every (N,W) with N<=10, W<=14 for the class maps (every class); "
         "a case is one (n) or one (N,W) shape; non-trivial = n>=2 resp. N*W>=2; distinct by shape")
@@ -88,7 +90,7 @@ def run(ctx):
                     meta.append(("cidx", n, r, c))
     model_out = dict(zip(meta, ctx.driver.run(lines)))
 
-    gen_cidx = []
+    gen_cidx, gen_comp, gen_reinf = [], [], []
     for pass_no in range(2):        # caches cleared / not cleared
         if pass_no == 0:
             clear()
@@ -167,6 +169,11 @@ def run(ctx):
                 if not np.array_equal(mc.compress_matrix(mc.reinflate_matrix(vf.copy())), vf):
                     ctx.violation("impl-violation", "compress(reinflate(v)) != v for a vector of finite doubles",
                                   {"n": n}, {"site": "roundtrip-float"})
+                if n <= 12 and pass_no == 0:
+                    # the functions TRANSLATED from the source, on the same (integer-valued) inputs
+                    rows_ = lambda M_: show_list([[int(x) for x in r_] for r_ in M_], lambda r_: show_list(r_), ";")
+                    gen_comp.append((rows_(S), "ok " + show_list([int(x) for x in v]), {"n": n}))
+                    gen_reinf.append((show_list([int(x) for x in w]), "ok " + rows_(mc.reinflate_matrix(w)), {"n": n}))
                 if n <= model_n_mat and pass_no == 0:
                     cells = [int(x) for x in S.reshape(-1)]
                     o = ctx.driver.run([f"compress {n} {show_list(cells)}",
@@ -185,6 +192,8 @@ def run(ctx):
 
     # the closed-form index TRANSLATED from the source (Generated/Kernels.lean) on the same arguments
     ctx.gen_compare("_compressed_index", gen_cidx or [])
+    ctx.gen_compare("compress_matrix", gen_comp + [("1,2,3;4,5,6", "err RuntimeError", {})])
+    ctx.gen_compare("reinflate_matrix", gen_reinf)
 
     # ------------------------------------------------------------ class maps
     lines, meta = [], []
